@@ -455,7 +455,7 @@ func (c18) Run(u fw.Unit) fw.Result { return runSched("C18", u, c18Scenarios(u.T
 func (c18) Describe(tier string) fw.Description {
 	return fw.Description{
 		Level: "model_checking",
-		Rule: "stateless DFS over all schedules (<= bound deviations, all blocking-switch and select choices, virtual clock) of closed harnesses on the real Streamsql instance: 11 query kinds (direct, analytic, MATCH_RECOGNIZE, tumbling/sliding/session in event and processing time, counting, global) x {drop, block, expand} with buffers of 2 and threads P(Emit x2) || S(Stop) || A(AddSink), plus thread subsets with GetStats / TriggerWindow / EmitSync / two producers and sink variants (panicking synchronous and asynchronous sinks - without a concurrent Stop every later row must still be delivered and nothing may escape through EmitSync -, calling GetStats or AddSink re-entrantly, blocking for ever) on selected kinds; then a second Stop, an Emit after Stop and 700 ms of virtual time; monitors: no escaped panic, no deadlock, Stop returns without its 5 s grace timer unless a sink blocks for ever, no sink invocation after Stop returned, Emit after Stop reaches no sink, no engine goroutine left; non-trivial = reached through >= 1 deviation",
+		Rule: "stateless DFS over all schedules (<= bound deviations, all blocking-switch and select choices, virtual clock) of closed harnesses on the real Streamsql instance: 11 query kinds (direct, analytic, MATCH_RECOGNIZE, tumbling/sliding/session in event and processing time, counting, global) x {drop, block, expand} with buffers of 2 and threads P(Emit x2) || S(Stop) || A(AddSink), plus thread subsets with GetStats / TriggerWindow / EmitSync / two producers and sink variants (panicking synchronous and asynchronous sinks - without a concurrent Stop every later row must still be delivered and nothing may escape through EmitSync -, calling GetStats, AddSink or EmitSync re-entrantly, blocking for ever or until Stop has returned, a pair of synchronous sinks of which the first panics on every batch - the second must get every batch -, slow asynchronous sinks behind a saturated pool, rows that make a user function panic) on selected kinds; then a second Stop, an Emit after Stop and 700 ms of virtual time; monitors: no escaped panic, no deadlock, Stop returns without its 5 s grace timer unless a sink blocks for ever, no sink invocation after Stop returned, Emit after Stop reaches no sink, no engine goroutine left; non-trivial = reached through >= 1 deviation",
 		Bounds:      map[string]any{"deviations": "quick: 2 with every non-default choice costing 1; thorough: 1 with free choices at blocking points (time-capped)", "threads": "3-4 harness threads + engine goroutines", "buffers": 2},
 		Assumptions: []string{"memory-level data races are outside the scheduler's view: covered by the separate free-running -race pass (bin/racepass)", "virtual time: 'within its grace period' is decided as 'the 5 s timer did not have to fire'"},
 	}
